@@ -249,9 +249,20 @@ class G:
         off = r.choice((-12, -9, -5, -3, 0, 1, 2, 5, 8, 10, 13, 14)) * 3600 + r.choice((0, 0, 0, 1800, 2700))
         if off > 14 * 3600:
             off = 14 * 3600
-        sub = ("comp", "STANDARD", (("DTSTART", (), ("dt", 1970, 1, 1, 0, 0, 0, None)), ("TZOFFSETFROM", (), ("utcoffset", off)),
-                                    ("TZOFFSETTO", (), ("utcoffset", off)), ("TZNAME", (), ("text", "VST"))), ())
-        return ("comp", "VTIMEZONE", (("TZID", (), ("text", tzid)),), (sub,))
+        oprops = [("DTSTART", (), ("dt", 1970, 1, 1, 0, 0, 0, None)), ("TZOFFSETFROM", (), ("utcoffset", off)),
+                  ("TZOFFSETTO", (), ("utcoffset", off)), ("TZNAME", (), ("text", "VST"))]
+        zprops = [("TZID", (), ("text", tzid))]
+        # properties without meaning for the zone that real producers write (X-LIC-LOCATION, X-MICROSOFT-..., COMMENT): they have to
+        # survive like any other property, in the definition and inside its observances
+        if r.randrange(3) == 0:
+            oprops.append((r.choice(("X-VERIF-OBS", "COMMENT", "X-MICROSOFT-CDO-TZID")), (), ("text", r.choice(("note", "11", "Custom Standard Time")))))
+            if r.randrange(2):
+                r.shuffle(oprops)
+        if r.randrange(3) == 0:
+            zprops.append(r.choice((("X-LIC-LOCATION", (), ("text", tzid)), ("X-VERIF-ZONE", (), ("text", "zone note")), ("TZURL", (), ("uri", "http://example.com/tz/" + tzid)),
+                                    ("LAST-MODIFIED", (), ("dt", 2020, 1, 2, 3, 4, 5, "UTC")))))
+        sub = ("comp", "STANDARD", tuple(oprops), ())
+        return ("comp", "VTIMEZONE", tuple(zprops), (sub,))
 
     def unknown_component(self, depth):
         r = self.rng
